@@ -200,3 +200,39 @@ class Check:
             print("HARNESS ERROR (not a property verdict):\n" + harness[0]["trace"], file=sys.stderr)
             return 2
         return 1 if self.violation_paths else 0
+
+
+class ShrinkBudget:
+    """Bounds the wall-clock time Hypothesis spends shrinking: once the budget after the first failure is used up,
+    cases that have not failed before are not executed any more (they 'pass'), so the shrinker runs out of
+    candidates quickly; cases that did fail keep failing, so the final replay of the minimal example is consistent."""
+
+    def __init__(self, seconds=None):
+        if seconds is None:
+            seconds = 240 if os.environ.get("VERIF_TIER_EFFECTIVE") == "thorough" else 40
+        self.seconds = seconds
+        self.t_first = None
+        self.failing = set()
+
+    def skip(self, dg):
+        return self.t_first is not None and time.time() - self.t_first > self.seconds and dg not in self.failing
+
+    def failed(self, dg):
+        self.failing.add(dg)
+        if self.t_first is None:
+            self.t_first = time.time()
+
+
+def run_hypothesis(test, state, res):
+    """Runs a @given test whose body records its (shrunk) failure in state['fail'] = (case, why) and raises.
+    Any Hypothesis-level complaint about inconsistent replays is downgraded to the recorded failure, which the
+    caller replays 3x itself before believing it."""
+    import hypothesis.errors
+    try:
+        test()
+    except Exception as e:
+        if state.get('fail') is not None:
+            case, why = state['fail']
+            res.failures.append(dict(case=case, why=why))
+        else:
+            res.failures.append(dict(why="harness exception", harness_error=True, trace=traceback.format_exc()))
